@@ -582,6 +582,128 @@ theorem attempts_writes_eq (c : Cfg) (s : Nat → Ev) (i k : Nat) (last : Out) (
     · have := ih (by omega); simp at this ⊢; omega
     · rw [attempts_done c s (i+1) k' _ (by omega)]; simp [retryEventsFrom]; omega
 
+/-! ### responsePending is never followed by a transmission -/
+
+/-- in a trace, every read that produced a responsePending reply is directly followed by another read
+    (no transmission, no sleep, no reconnect in between) or is the last action -/
+def PendNoWrite (s : Nat → Ev) : List Op → Prop
+  | [] => True
+  | .rd k _ _ :: rest => (s k = .pending → ∀ o ∈ rest.head?, o.isRd = true) ∧ PendNoWrite s rest
+  | .wr :: rest => PendNoWrite s rest
+  | .sl _ :: rest => PendNoWrite s rest
+  | .rc :: rest => PendNoWrite s rest
+
+theorem pnw_of_all_rd (s : Nat → Ev) (t : List Op) (h : ∀ op ∈ t, op.isRd = true) : PendNoWrite s t := by
+  induction t with
+  | nil => trivial
+  | cons o t ih =>
+    have ht := ih (fun op hop => h op (List.mem_cons_of_mem _ hop))
+    cases o with
+    | rd k tm d =>
+      refine ⟨fun _ o ho => ?_, ht⟩
+      cases t with
+      | nil => simp at ho
+      | cons x t => simp at ho; subst ho; exact h _ (by simp)
+    | _ => exact ht
+
+theorem pnw_append (s : Nat → Ev) (a b : List Op) (ha : PendNoWrite s a) (hb : PendNoWrite s b)
+    (hj : ∀ k tm d, a.getLast? = some (.rd k tm d) → s k = .pending → ∀ o ∈ b.head?, o.isRd = true) :
+    PendNoWrite s (a ++ b) := by
+  induction a with
+  | nil => simpa using hb
+  | cons o a ih =>
+    have hj' : ∀ k tm d, a.getLast? = some (.rd k tm d) → s k = .pending → ∀ o ∈ b.head?, o.isRd = true := by
+      intro k tm d hl
+      cases a with
+      | nil => simp at hl
+      | cons x a => exact hj k tm d (by simpa [List.getLast?_cons_cons] using hl)
+    cases o with
+    | rd k tm d =>
+      obtain ⟨h1, h2⟩ := ha
+      refine ⟨fun hk o ho => ?_, ih h2 hj'⟩
+      cases a with
+      | nil => exact hj k tm d (by simp) hk o (by simpa using ho)
+      | cons x a => exact h1 hk o (by simpa using ho)
+    | wr => exact ih ha hj'
+    | sl d => exact ih ha hj'
+    | rc => exact ih ha hj'
+
+theorem pnw_afterFault (s : Nat → Ev) (c : Cfg) (i : Nat) (b : Bool) (x : List Op) :
+    PendNoWrite s (afterFault c i b ++ x) ↔ PendNoWrite s x := by
+  unfold afterFault; cases b <;> split <;> simp [PendNoWrite]
+
+theorem pend_all_rd (c : Cfg) (s : Nat → Ev) (k np nt : Nat) :
+    ∀ op ∈ (pendingLoop c s k np nt).2, op.isRd = true := by
+  fun_induction pendingLoop c s k np nt with
+  | case2 _ _ _ _ _ ih => simpa [consOp] using ih
+  | case8 _ _ _ _ _ ih => simpa [consOp] using ih
+  | _ => simp
+
+/-- when the pending loop is left by `break`, its last read was not a responsePending -/
+theorem pend_last (c : Cfg) (s : Nat → Ev) (k np nt : Nat)
+    (h : ∀ o, (pendingLoop c s k np nt).1 ≠ .done o) :
+    ∀ j tm d, (pendingLoop c s k np nt).2.getLast? = some (.rd j tm d) → s j ≠ .pending := by
+  fun_induction pendingLoop c s k np nt with
+  | case2 k np nt hk hl ih =>
+    intro j tm d hlast
+    have hpos := (pend_facts c s (k+1) np (nt+1)).pos
+    cases ht : (pendingLoop c s (k+1) np (nt+1)).2 with
+    | nil => simp [ht] at hpos
+    | cons x t =>
+      simp only [consOp, ht, List.getLast?_cons_cons] at hlast
+      exact ih (by simpa [consOp] using h) j tm d (by rw [ht]; exact hlast)
+  | case8 k np nt hk hl ih =>
+    intro j tm d hlast
+    have hpos := (pend_facts c s (k+1) (np+1) 0).pos
+    cases ht : (pendingLoop c s (k+1) (np+1) 0).2 with
+    | nil => simp [ht] at hpos
+    | cons x t =>
+      simp only [consOp, ht, List.getLast?_cons_cons] at hlast
+      exact ih (by simpa [consOp] using h) j tm d (by rw [ht]; exact hlast)
+  | _ => simp_all
+
+theorem attempts_pnw (c : Cfg) (s : Nat → Ev) (i k : Nat) (last : Out) :
+    PendNoWrite s (attempts c s i k last).2 := by
+  fun_induction attempts c s i k last with
+  | case1 => trivial
+  | case2 i k _ _ hk ih => simp [pre, PendNoWrite, hk, pnw_afterFault, ih]
+  | case3 i k _ _ hk ih => simp [pre, PendNoWrite, hk, pnw_afterFault, ih]
+  | case4 i k _ _ hk ih => simp [pre, PendNoWrite, hk, pnw_afterFault, ih]
+  | case6 i k _ _ hk hl ih => simp [pre, PendNoWrite, hk, ih]
+  | case11 i k _ _ hk o t hp =>
+    have ar := pend_all_rd c s (k+1) 1 0
+    have pos := (pend_facts c s (k+1) 1 0).pos
+    rw [hp] at ar pos
+    simp only at ar pos
+    refine ⟨fun _ o ho => ?_, pnw_of_all_rd s t ar⟩
+    cases t with
+    | nil => simp at pos
+    | cons x t => simp at ho; subst ho; exact ar _ (by simp)
+  | case12 i k _ _ hk k' t hp ih =>
+    have ar := pend_all_rd c s (k+1) 1 0
+    have pos := (pend_facts c s (k+1) 1 0).pos
+    have pl := pend_last c s (k+1) 1 0 (by rw [hp]; simp)
+    rw [hp] at ar pos pl
+    simp only at ar pos pl
+    refine ⟨fun _ o ho => ?_, pnw_append s t _ (pnw_of_all_rd s t ar) ih
+      (fun j tm d hl hj => absurd hj (pl j tm d hl))⟩
+    cases t with
+    | nil => simp at pos
+    | cons x t => simp at ho; subst ho; exact ar _ (by simp)
+  | case13 i k _ _ hk k' t hp ih =>
+    have ar := pend_all_rd c s (k+1) 1 0
+    have pos := (pend_facts c s (k+1) 1 0).pos
+    have pl := pend_last c s (k+1) 1 0 (by rw [hp]; simp)
+    rw [hp] at ar pos pl
+    simp only at ar pos pl
+    simp only [pre, List.cons_append, List.append_assoc]
+    refine ⟨fun _ o ho => ?_, pnw_append s t _ (pnw_of_all_rd s t ar) ((pnw_afterFault ..).mpr ih)
+      (fun j tm d hl hj => absurd hj (pl j tm d hl))⟩
+    cases t with
+    | nil => simp at pos
+    | cons x t => simp at ho; subst ho; exact ar _ (by simp)
+  | _ => simp_all [PendNoWrite]
+
 /-! ### the specification determines the outcome -/
 
 theorem final_eq {e : Ev} : e.final = true ↔ e = .negFinal ∨ e = .posFinal := by cases e <;> simp [Ev.final]
